@@ -1207,7 +1207,8 @@ func (m *Model) nativeCall(n *N, env *MEnv) res {
 			if !ok {
 				return m.giveUp("truthiness of callback result")
 			}
-			if t == (n.Str == "select") && (n.Str == "select" || n.Str == "exclude") {
+			if t == (n.Str == "select") && (n.Str == "select" || n.Str == "exclude") && e.T != "nil" {
+				// (the methods are list chains underneath: a nil element is visited, never collected)
 				out.E = append(out.E, e)
 			}
 			all = all && t
